@@ -66,6 +66,20 @@ func c02seq(idx int) []resp.Value {
 		wide.A = append(wide.A, resp.Array(resp.Array(resp.BulkS("deep"))))
 		vs = append(vs, wide, resp.Array(resp.Array(resp.Array(resp.Int(1)))))
 	}
+	// every 10th sequence carries an array with more elements than the array reader's initial capacity (1024)
+	if idx%10 == 5 {
+		cnt := rng.Pick(r, []int{1024, 1025, 1300, 2048, 2049, 3000})
+		wide := resp.Value{K: '*', A: make([]resp.Value, 0, cnt)}
+		for i := 0; i < cnt; i++ {
+			if i%7 == 3 {
+				wide.A = append(wide.A, resp.Int(int64(i)))
+			} else {
+				wide.A = append(wide.A, resp.BulkS(fmt.Sprint("e", i)))
+			}
+		}
+		at := r.Intn(len(vs) + 1)
+		vs = append(vs[:at:at], append([]resp.Value{wide}, vs[at:]...)...)
+	}
 	// every 10th sequence carries one large bulk (around the 64 KiB mark and beyond) in the middle, so that
 	// buffer-growth and read-ahead paths are exercised with data of the following value already available
 	if idx%10 == 3 {
@@ -269,6 +283,9 @@ func c02run(idx int) run.Result {
 		if len(vs) > 100 && !r.Chance(1, 30) {
 			continue // long sequences of tiny values: a sample of the split points
 		}
+		if idx%10 == 5 && !r.Chance(300, len(stream)) {
+			continue // many small elements: about 300 of the split points
+		}
 		scheds = append(scheds, sched{fmt.Sprintf("split@%d", o), chunkAt(stream, []int{o}), string(cls[o])})
 	}
 	nRandom := 32
@@ -346,7 +363,7 @@ func init() {
 	run.Register(&run.Prop{
 		ID: "C02", Level: "exploration",
 		Rule: func(tier string) string {
-			return "case = one sequence of 1..6 generated values plus a sentinel integer, ending in that integer, in a command array or in a bulk string (every tenth sequence carries a bulk around 64 KiB, every tenth is 130..430 tiny values - empty arrays alone and as elements, small nested arrays - ending in an array of >= 129 empty arrays and a nested one), parsed through proto.NewParserWithReader over a scripted reader under: whole delivery, 1-byte, 2-byte at both parities, 3-byte, every 2-way split point (all offsets for streams <=400 bytes; all structural offsets and a sample of payload offsets beyond) and 32 random k-way partitions, and seven of these partitions once more with the last byte and the end of stream reported by one and the same read (n>0 together with io.EOF); verdict = exactly those values in order, then (nil,nil). distinct_nontrivial counts distinct (sequence, served read-size sequence) pairs other than whole delivery; counters split:* classify where the split fell"
+			return "case = one sequence of 1..6 generated values plus a sentinel integer, ending in that integer, in a command array or in a bulk string (every tenth sequence carries a bulk around 64 KiB, every tenth an array of 1024..3000 elements, every tenth is 130..430 tiny values - empty arrays alone and as elements, small nested arrays - ending in an array of >= 129 empty arrays and a nested one), parsed through proto.NewParserWithReader over a scripted reader under: whole delivery, 1-byte, 2-byte at both parities, 3-byte, every 2-way split point (all offsets for streams <=400 bytes; all structural offsets and a sample of payload offsets beyond) and 32 random k-way partitions, and seven of these partitions once more with the last byte and the end of stream reported by one and the same read (n>0 together with io.EOF); verdict = exactly those values in order, then (nil,nil). distinct_nontrivial counts distinct (sequence, served read-size sequence) pairs other than whole delivery; counters split:* classify where the split fell"
 		},
 		Assumptions: []string{"only (n>0,nil) and (0,err) read results are produced, as a net.Conn does", "independent codec resp is correct"},
 		Setup: func(tier string, seed uint64) int {
